@@ -45,6 +45,8 @@ def main():
     sh(f"git -C /repo worktree prune")
     r = sh(f"cp -r /repo {scratch} && rm -rf {scratch}/.git && cd {scratch} && git init -q && git add -A >/dev/null 2>&1 && git -c user.email=a@b -c user.name=x commit -qm base")
     out = {"seeded": str(d), "property": prop, "tier": tier}
+    # evidence files describe runs on /repo itself: keep them out of reach of the seeded run
+    saved = {f: f.read_bytes() for f in (VERIF / "evidence").glob("*.json")}
     try:
         a = sh(f"cd {scratch} && git apply {d}/patch.diff")
         if a.returncode != 0:
@@ -67,6 +69,8 @@ def main():
         out["caught_by"] = [c for c, v in res.items() if v["rc"] != 0]
     finally:
         shutil.rmtree(scratch, ignore_errors=True)
+        for f, b in saved.items():
+            f.write_bytes(b)
         # leave Generated.v / build state consistent with /repo again
         subprocess.run([str(VERIF / "setup.sh")], capture_output=True, text=True, cwd=str(VERIF))
     print(json.dumps({k: out[k] for k in ("property", "caught_by")}))
